@@ -1,5 +1,6 @@
 import Orx.KSRun
 import Orx.IW.Outs
+import Orx.IW.Progress
 /-! # C09 Progress: every call returns; known-size sources never wait -/
 namespace Orx.Props.C09
 open Orx Orx.KS
@@ -37,5 +38,21 @@ theorem iter_ticket_holder_enters (s : IW.Script) (t : Nat) (c : IW.Cfg) (r : IW
   unfold IW.step
   simp only [h, hb, ↓reduceIte]
   split <;> simp [IW.setTh, IW.Pc.inCS]
+
+/-- **Wrapper, deadlock freedom, all schedules**: in every reachable configuration (fused scripts, panics
+included; skips anywhere), if some thread still has work then some working thread is not waiting: the holder of
+the ticket `yielded` points at, or — once `completed` is set — everybody. -/
+theorem iter_deadlock_free (s : IW.Script) (hf : IW.Fused s) (ps : Nat → List IW.Req) (hok : ∀ t, ∀ r ∈ ps t, IW.ReqOk r)
+    (σ : List Nat) (hW : (IW.run s σ (IW.init ps)).R < W) (t0 : Nat) (hb : IW.Busy (IW.run s σ (IW.init ps)) t0) :
+    ∃ t, IW.Busy (IW.run s σ (IW.init ps)) t ∧ ¬ IW.Spinning (IW.run s σ (IW.init ps)) t := by
+  obtain ⟨hi, hc, hd⟩ := IW.cover_run hf σ (IW.inv_init s ps hok) (IW.cover_init ps) (by intro t b n h; simp [IW.init] at h) hW
+  exact IW.deadlock_free hi hc hd t0 hb
+
+/-- a waiting thread's spin iteration changes nothing but its own place in the two-load loop: it cannot delay
+anybody, and it keeps being a spin iteration until `yielded` or `completed` changes -/
+theorem iter_spin_is_harmless (s : IW.Script) (t : Nat) (c : IW.Cfg) (h : IW.Spinning c t) :
+    (IW.step s t c).R = c.R ∧ (IW.step s t c).Y = c.Y ∧ (IW.step s t c).C = c.C ∧ (IW.step s t c).P = c.P ∧
+    (∀ u, u ≠ t → (IW.step s t c).th u = c.th u) ∧ IW.Spinning (IW.step s t c) t :=
+  IW.spin_step_harmless s t c h
 
 end Orx.Props.C09
